@@ -817,3 +817,43 @@ SPECS["C09"] = CheckSpec(
     technique="explicit-state BFS over operation histories incl. synchronisation macro-operations on the real objects (SEQX)",
     design_ref="DESIGN.md §3 C09", engine="SEQX",
 )
+
+
+# --------------------------------------------------------------------------- C18
+C18_BUILD = dict(flavour="asan", name="c18_alloc", harness_srcs=["c18_alloc.c"],
+                 exclude_lib=["rtrlib/pfx/trie/trie-pfx.c", "rtrlib/spki/hashtable/ht-spkitable.c"],
+                 extra_ldflags=["-Wl,--wrap=lrtr_get_monotonic_time,--wrap=sleep,--wrap=lrtr_dbg"])
+
+
+def c18_jobs(tier, repo):
+    jobs = [Job("c18_alloc", C18_BUILD, ["--mode=fault"], "k-th allocation fails, every k, tables + synchronisation")]
+    depth, n = (3, 4) if tier == "quick" else (4, 16)
+    for i in range(n):
+        jobs.append(Job("c18_alloc", C18_BUILD, ["--mode=clean", "--depth=%d" % depth, "--shard=%d" % i, "--nshards=%d" % n],
+                        "failure-free histories of %d operations, shard %d/%d" % (depth, i, n)))
+    return jobs
+
+
+SPECS["C18"] = CheckSpec(
+    "C18", c18_jobs,
+    rule="with a user allocator installed through lrtr_set_alloc_functions (every block tagged with a header): (fault) "
+         "5 prefix-table seed states x 12 operations, 7 key-table sizes (0,1,31,32,33,64,65: below / at / beyond the "
+         "resize steps) x 7 operations, and 5 cache responses through the real rtr_sync; for each the number n of "
+         "allocations is measured and the case is re-run n times with the k-th allocation failing, k = 1..n; a call that "
+         "reports an error must leave the contents unchanged (as a set), a call that absorbs the failure must have its "
+         "full effect, after a failed synchronisation the tables must still behave as sets and another source's records "
+         "must survive; (clean) ALL failure-free histories of the stated length over 24 operations (prefix, key, "
+         "synchronisation) from two seeds: after freeing the tables no block is outstanding, no block was released "
+         "through another allocator (ASan reports a libc free of a tagged block, the allocator a foreign block)",
+    assumptions=["single allocation failures only (the k-th, for every k), as the statement says",
+                 "histories of 3 (thorough 4) operations in the clean mode"],
+    counters_map={"executions": ["transitions"], "distinct": ["distinct_outcomes", "states"]},
+    level_text="Fault enumeration at every allocation site reached by each (seed, operation) pair, and exhaustive "
+               "failure-free histories with a tagging allocator: every allocation of every case is failed exactly once, "
+               "which is what the property quantifies over.",
+    level_note="The allocator is the public hook; table contents are compared as sets (the internal order of a payload "
+               "array is not part of the property). ASan turns a release through the wrong allocator into a crash, "
+               "which the supervisor reports as a violation of the running case.",
+    technique="exhaustive single-fault enumeration over allocation indices + exhaustive short histories (SEQX/ENVX x fault index)",
+    design_ref="DESIGN.md §3 C18", engine="SEQX",
+)
